@@ -548,35 +548,48 @@ variable {τ ν : Type}
 def cacheExec (enc : τ → ν → Routing.Enc) (s : State τ) (steps : List (Step τ ν)) : State τ :=
   steps.foldl (fun s st => (step enc s st).2) s
 
-/-- FULL STATEMENT (not provable for the unchanged code — KF-C09-2, KF-C09-3, counterexamples below): for EVERY history
-    `run enc s steps = Spec.run enc s.stmts steps`, i.e. every routing key is the one computed from what the server's
-    PREPARE answer and the schema say at that moment (which C09_routing_from_metadata / C09_routing_from_schema equate with
-    the framing of the values at the partition-key markers), whatever the cache holds.
-    PROVED for every history whose steps are all SAFE (`RoutingCache.safe`, decided along the run): no first use of a
-    statement while no connection is available, no change of a statement's key while the cache holds the statement. Any
-    number of statements, any cache size (evictions included), any interleaving of hits, misses, ErrNoMetadata outcomes,
-    unbound key columns, `Max(n)`, explicit keys and binding callbacks. -/
+/-- FULL STATEMENT (not provable for the unchanged code — KF-C09-3, counterexample below): for EVERY history every answer
+    is acceptable: THE routing key computed from what the server's PREPARE answer and the schema say at that moment
+    (which C09_routing_from_metadata / C09_routing_from_schema equate with the framing of the values at the
+    partition-key markers), whatever the cache holds — or, only while no connection is available, the
+    "no connection available" error (`Spec.accepts`; C09_cache_answer_when_up: with a connection it is the key).
+    PROVED (code repaired by props/C09.fix-KF-C09-2.diff) for every history whose steps are all SAFE (`RoutingCache.safe`,
+    decided along the run): no change of a statement's key while the cache holds the statement (KF-C09-3, open). Any
+    number of statements, any cache size (evictions included), any interleaving of hits, misses, hosts going down and
+    coming back, ErrNoMetadata outcomes, unbound key columns, `Max(n)`, explicit keys and binding callbacks. -/
 theorem C09_cache_transparent_partial (enc : τ → ν → Routing.Enc) (s : State τ) (steps : List (Step τ ν))
     (hc : Coherent s) (hs : safe enc s steps = true) :
-    run enc s steps = Spec.run enc s.stmts steps := run_safe enc steps s hc hs
+    Spec.acceptsRun enc s.stmts s.up steps (run enc s steps) = true := run_accepts enc steps s hc hs
 
 /-- …in particular from a new session (empty cache), for every cache size -/
 theorem C09_cache_transparent_new_session_partial (enc : τ → ν → Routing.Enc) (stmts : List (Stmt τ)) (max : Nat)
     (steps : List (Step τ ν)) (hs : safe enc ⟨stmts, true, max, []⟩ steps = true) :
-    run enc ⟨stmts, true, max, []⟩ steps = Spec.run enc stmts steps :=
-  run_safe enc steps _ (by intro p hp; cases hp) hs
+    Spec.acceptsRun enc stmts true steps (run enc ⟨stmts, true, max, []⟩ steps) = true :=
+  run_accepts enc steps _ (by intro p hp; cases hp) hs
 
-/-- …and what that key IS, step by step: from any coherent state (e.g. any state reached by a safe history), a safe use
+/-- with a connection the acceptable answer is THE specification's answer (no cache) -/
+theorem C09_cache_answer_when_up (enc : τ → ν → Routing.Enc) (stmts : List (Stmt τ)) (st : Step τ ν) (o : Option Out)
+    (h : Spec.accepts enc stmts true st o = true) : o = Spec.stepOut enc stmts st := accepts_up enc stmts st o h
+
+/-- **KF-C09-2 repaired, for every state**: a first use of a statement while no connection is available answers the
+    error and caches NOTHING for the statement (every entry of the cache afterwards was there before) -/
+theorem C09_cache_noconn_not_cached (enc : τ → ν → Routing.Enc) (s : State τ) (k : Nat) (vals : List ν) (st0 : Stmt τ)
+    (hup : s.up = false) (hl : lookup k s.lru = none) (hst : s.stmts[k]? = some st0) :
+    (step enc s (.use k vals)).1 = some .errNoConn ∧ (∀ p ∈ (step enc s (.use k vals)).2.lru, p ∈ s.lru) :=
+  ⟨(use_noconn enc s k vals st0 hup hl hst).1, (use_noconn enc s k vals st0 hup hl hst).2.1⟩
+
+/-- …and what that key IS, step by step: from any coherent state (e.g. any state reached by a safe history), a safe use (info cached or a connection at hand)
     of a statement whose PREPARE answer carries partition-key indexes answers the CompositeType framing (the raw value
     for one key column) of the encodings of the values AT the key markers, in partition-key order — whether the info
     came from the cache (hit), was just computed (miss), or an older statement had to be evicted for it. -/
 theorem C09_cache_use_from_metadata (enc : τ → ν → Routing.Enc) (s : State τ) (k : Nat) (vals : List ν)
     (st : Stmt τ) (cs : List Routing.Bytes) (hc : Coherent s)
-    (hs : safeStep s (.use k vals : Step τ ν) = true) (hst : s.stmts[k]? = some st) (hpk : st.md.pkeys ≠ [])
+    (hs : safeStep s (.use k vals : Step τ ν) = true) (hcn : connected s (.use k vals : Step τ ν) = true)
+    (hst : s.stmts[k]? = some st) (hpk : st.md.pkeys ≠ [])
     (h : Routing.Spec.components enc st.md.cols vals st.md.pkeys = some cs) :
     (step enc s (.use k vals)).1 = some (.res (.key (some (Token.routingKey cs)))) ∧
     Coherent (step enc s (.use k vals)).2 := by
-  obtain ⟨ho, hc', _⟩ := step_safe enc s (.use k vals) hc hs
+  obtain ⟨ho, hc', _⟩ := step_safe enc s (.use k vals) hc hs hcn
   refine ⟨?_, hc'⟩
   rw [ho]
   simp only [Spec.stepOut, hst]
@@ -618,13 +631,12 @@ theorem C09_cex_cache_stale :
     Spec.run toyEnc [toyStmt 0] [.use 0 [[1], [2]], .change 0 (toyStmt 1), .use 0 [[1], [2]]]
       = [some (.res (.key (some [0, 1]))), none, some (.res (.key (some [0, 2])))] := by decide
 
-/-- COUNTEREXAMPLE (KF-C09-2, the "no connection available" error is cached): a first use of a statement while the
-    host is down, the host comes back, every later use still fails — the statement is never routed by token again. -/
-theorem C09_cex_cache_noconn :
+/-- KF-C09-2 repaired, test vector: a first use while the host is down fails, the host comes back, the next use is routed -/
+example :
     run toyEnc ⟨[toyStmt 0], true, 0, []⟩ [.down, .use 0 [[1], [2]], .up, .use 0 [[1], [2]], .use 0 [[3], [4]]]
-      = [none, some .errNoConn, none, some .errNoConn, some .errNoConn] ∧
-    Spec.run toyEnc [toyStmt 0] [.up, .use 0 [[1], [2]], .use 0 [[3], [4]]]
-      = [none, some (.res (.key (some [0, 1]))), some (.res (.key (some [0, 3])))] := by decide
+      = [none, some .errNoConn, none, some (.res (.key (some [0, 1]))), some (.res (.key (some [0, 3])))] ∧
+    safe toyEnc ⟨[toyStmt 0], true, 0, []⟩ [.down, .use 0 [[1], [2]], .up, .use 0 [[1], [2]], .use 0 [[3], [4]]] = true := by
+  decide
 
 end cache
 
